@@ -267,11 +267,27 @@ static void on_alarm(int sig) { (void) sig; printf("\n@@TIMEOUT\n"); fflush(stdo
 static long *read_longs(char *p, long k) { long *v = (long *) malloc((k + 1) * sizeof(long)), i; char *e; for (i = 0; i < k; ++i) { v[i] = strtol(p, &e, 10); p = e; } return v; }
 static double *read_doubles(char *p, long k) { double *v = (double *) malloc((k + 1) * sizeof(double)); long i; char *e; for (i = 0; i < k; ++i) { v[i] = strtod(p, &e); p = e; } return v; }
 
+/* the library stops through exit() (SUPERLU_ABORT): hand the allocation log of the interrupted case to the checker */
+static void on_exit_log(void)
+{
+    int w; long k2;
+    if (!cb_on || !cur_case) return;
+    cb_on = 0;
+    printf("\n@@ABORTLOG %ld {", cur_case->id);
+    for (w = 0; w < 2; ++w) {
+        printf("\"%s\":[", w ? "abort_bump_l" : "abort_bump_u");
+        for (k2 = 0; k2 < nbump[w] && k2 < MAXBUMP; ++k2) printf("%s[%ld,%ld,%ld]", k2 ? "," : "", bumplog[w][k2][0], bumplog[w][k2][1], bumplog[w][k2][2]);
+        printf("]%s", w ? "" : ",");
+    }
+    printf("}\n"); fflush(stdout);
+}
+
 int main(void)
 {
     static char *line; size_t cap = 0; ssize_t len;
     case_t c; long defienv[8] = {20, 6, 200, 200, 100, -50, -50, -30};
     signal(SIGALRM, on_alarm);
+    atexit(on_exit_log);
     memset(&c, 0, sizeof c);
 #define RESET() do { free(c.colptr); free(c.rowind); free(c.permc); free(c.permr); free(c.vals); free(c.rhs); free(c.rhs2); memset(&c, 0, sizeof c); \
         strcpy(c.driver, "gssv"); c.nprocs = 1; c.colperm = 0; memcpy(c.ienv, defienv, sizeof defienv); c.thresh = 1.0; c.timeout = 120; c.dump_lu = 1; c.destroy = 1; c.fact = 0; c.trans = 0; } while (0)
